@@ -4193,7 +4193,13 @@ fn literal_to_literal(
                         };
                         Literal::U64(value)
                     }
-                    LitIntType::U256 => Literal::U256(parsed.into()),
+                    LitIntType::U256 => {
+                        if parsed.bits() > 256 {
+                            let error = ConvertParseTreeError::IntLiteralOutOfRange { span };
+                            return Err(handler.emit_err(error.into()));
+                        }
+                        Literal::U256(parsed.into())
+                    }
                     LitIntType::I8 | LitIntType::I16 | LitIntType::I32 | LitIntType::I64 => {
                         let error = ConvertParseTreeError::SignedIntegersNotSupported { span };
                         return Err(handler.emit_err(error.into()));
